@@ -1,6 +1,7 @@
 /- driver handlers: persistence (C11) -/
 import YawVerif.Drv.Common
 import YawVerif.Model.Persist
+import YawVerif.Model.Fmt
 
 open Yaw Yaw.Proto Yaw.Drv Yaw.Persist
 
@@ -29,8 +30,15 @@ def hSparse : R String := do
       for j in [0:N] do rt := rt.push (fmtRat (back b i j))
   pure (" ; ".intercalate out.toList ++ " | " ++ join rt)
 
+/-- `fmt w x` → the exact value `format_float_fixed_width(x, w)` writes (what `float(string)` reads back) -/
+def hFmt : R String := do
+  let w ← nat
+  let x ← rat
+  pure (fmtRat (Yaw.Fmt.fmtValue w x))
+
 def handler (kind : String) : R String :=
   match kind with
+  | "fmt" => hFmt
   | "members" => hMembers
   | "sparse" => hSparse
   | _ => throw s!"unknown kind {kind}"
